@@ -1,2 +1,80 @@
-Theorem C08_placeholder : True. Proof. exact I. Qed.
-Print Assumptions C08_placeholder.
+(* C08 — FOR/ROF blocks assemble exactly like their manual unrolling.
+   ForExpand.for_step / for_run is the literal model of the expander state machine of
+   forexpand.go (run against gmars on every run: hook kind 21 and whole programs),
+   Render.unroll the manual unrolling of an abstract program. *)
+From GM Require Import Base Text Token Lexer Scanner ExprSpec ExprEval ForExpand Parser Compile Sim Prog Meaning Render AsmSpec
+     C05Lexer C05Expander C08Proof.
+Open Scope N_scope.
+
+(* the property at full strength, on the model: a program and its unrolling assemble alike *)
+Definition C08_full_statement : Prop :=
+  forall s s' cfg p, validate cfg = true ->
+    match unroll_prog (mconf_of cfg) 64 p with
+    | Some q =>
+        match compile_warrior cfg (render s p), compile_warrior cfg (render s' q) with
+        | COk c1 st1 _, COk c2 st2 _ => c1 = c2 /\ st1 = st2
+        | CErr, CErr => True
+        | _, _ => False
+        end
+    | None => True
+    end.
+
+(* proved, at the level of the expander's state machine, for every stream, label list and count: *)
+
+(* what is sent for the body is the body written out count times, the counter replaced by 1, 2, ..., count
+   (nothing at all when the count is zero), block labels renamed uniformly, every other token kept *)
+Theorem C08_body_count_times_partial :
+  forall n i cl ll body,
+    repeat_body n i cl ll body = flat_map (fun j => map (subst_body cl ll j) body) (nseq i n) /\
+    repeat_body 0 i cl ll body = [] /\
+    (forall t, t_typ t = tokText -> t_val t = cl -> subst_body cl ll i t = mkT tokNumber (dec_of_N i)) /\
+    (forall t, t_typ t = tokText -> text_eqb (t_val t) cl = false -> mem_text (t_val t) ll = true ->
+       subst_body cl ll i t = mkT tokText (for_name cl (t_val t))) /\
+    (forall t, (t_typ t <> tokText \/ (text_eqb (t_val t) cl = false /\ mem_text (t_val t) ll = false)) ->
+       subst_body cl ll i t = t).
+Proof.
+  intros n i cl ll body. split; [apply repeat_body_unroll|]. split; [reflexivity|].
+  split; [intros t; apply subst_counter|]. split; [intros t; apply subst_label|intros t; apply subst_other].
+Qed.
+Print Assumptions C08_body_count_times_partial.
+
+(* from the ROF line on, whatever the state reached: the unrolled body is sent, then the rest of the
+   program is copied unchanged up to the end-of-file token *)
+Theorem C08_rof_phase_partial :
+  forall symbols n f f' skip rest e junk,
+    Forall (fun t => nonterm t /\ t_typ t <> tokNewline) skip -> Forall nonterm rest -> t_typ e = tokEOF ->
+    f_rd f = rd_at (skip ++ mkT tokNewline [] :: rest ++ e :: junk) ->
+    for_run symbols n FRof f = Some f' ->
+    f_out f' = f_out f
+               ++ flat_map (fun j => map (subst_body (f_count_label f) (f_line_labels f) j) (f_content f))
+                           (nseq 1 (Z.to_nat (f_count f)))
+               ++ rest.
+Proof. exact rof_phase. Qed.
+Print Assumptions C08_rof_phase_partial.
+
+(* the FOR line: the count is the value of its expression over the EQU symbols of the pre-scan; the name just
+   before FOR is the counter, the names before it are block labels; these are renamed and sent exactly once,
+   immediately before the first instruction the block emits *)
+Theorem C08_block_labels_partial :
+  (forall symbols f v,
+     expand_and_evaluate (f_expr f) symbols = Some (EOk v) ->
+     exists f1, for_step symbols FFor f = Some (f1, Some FInnerLine) /\
+       f_count f1 = v /\ f_count_label f1 = last (f_labels f) [] /\ f_line_labels f1 = init_list (f_labels f) /\
+       f_to_write f1 = Some (map (for_name (last (f_labels f) [])) (init_list (f_labels f))) /\
+       f_content f1 = [] /\ f_out f1 = f_out f /\ f_rd f1 = f_rd f) /\
+  (forall symbols f ls,
+     t_typ (f_nt f) = tokText -> tok_is_pseudo (f_nt f) = false -> tok_is_op (f_nt f) = true -> f_to_write f = Some ls ->
+     exists f1, for_step symbols FInnerLabels f = Some (f1, Some FInnerEmitLabels) /\
+       f_out f1 = f_out f ++ map (mkT tokText) ls /\ f_to_write f1 = None /\ f_rd f1 = f_rd f /\ f_content f1 = f_content f) /\
+  (forall symbols f,
+     t_typ (f_nt f) = tokText -> tok_is_pseudo (f_nt f) = false -> tok_is_op (f_nt f) = true -> f_to_write f = None ->
+     for_step symbols FInnerLabels f = Some (f, Some FInnerEmitLabels)).
+Proof. split; [exact step_for|]. split; [exact step_block_labels|exact step_block_labels_done]. Qed.
+Print Assumptions C08_block_labels_partial.
+
+(* missing: the collection of the body (forInnerLine .. forInnerEmitConsumeLine with nesting depth), the copying
+   of the lines before the block, the repeat-until-no-FOR driver, and the composition with lexer, parser and
+   compiler into C08_full_statement.  These are decided on every run by the correspondence: generated programs
+   (blocks in sequence, nested to depth 3, counts 0..6 from literals and EQU expressions, counters in inner and
+   outer operand expressions, block labels) and their extracted unrollings are assembled by gmars and by the
+   extracted model and compared with each other and with the extracted meaning. *)
